@@ -276,6 +276,15 @@ func applyOp(b []byte, op string) ([]byte, bool) {
 			}
 		}
 		return bytes.Join(lines, nil), hit
+	case "pad-first-line": // shifts every later byte: sweeps the alignment of the content against I/O buffer boundaries
+		k := num(1)
+		i := bytes.IndexByte(b, '\n')
+		if i < 0 {
+			return b, false
+		}
+		out := append([]byte(nil), b[:i]...)
+		out = append(out, bytes.Repeat([]byte(" "), k)...)
+		return append(out, b[i:]...), true
 	case "crlf":
 		return bytes.ReplaceAll(b, []byte("\n"), []byte("\r\n")), true
 	case "drop-line", "dup-line", "cut-line", "stray-token", "bad-number":
